@@ -65,6 +65,7 @@ func c03One(drv *core.Driver, body []jr.Dir, cfg ref.BalCfg) (string, string, *c
 		got[r.Path] = vs
 	}
 	cell := func(acc string, k int) *big.Rat {
+		acc = ref.RemapAccount(acc, cfg.Remap) // --remap only changes the section a row is shown in
 		if vs := got[acc]; vs != nil && k < len(vs) {
 			return vs[k]
 		}
@@ -166,6 +167,9 @@ func c03Cfgs(full bool) []ref.BalCfg {
 				}
 			}
 		}
+		// valuation combined with --remap (both look up counterpart accounts in the registry)
+		cs = append(cs, ref.BalCfg{Valuation: v, Interval: ref.Daily, NoClose: true, Remap: []string{"Checking|Cash"}},
+			ref.BalCfg{Valuation: v, Remap: []string{"Bank|Card"}})
 	}
 	return cs
 }
@@ -234,6 +238,7 @@ func c03Run(e *core.Env) {
 				chainCfgs = append(chainCfgs, ref.BalCfg{Valuation: v, Interval: iv, NoClose: nc})
 			}
 		}
+		chainCfgs = append(chainCfgs, ref.BalCfg{Valuation: v, Interval: ref.Daily, NoClose: true, Remap: []string{"Checking|Cash"}})
 	}
 	e.Note("position chains: 7 step kinds, <= %d steps on consecutive days, %d flag sets", chainN, len(chainCfgs))
 	positionChains(e, chainN, func(seq []jr.Dir) {
